@@ -131,6 +131,11 @@ def build_reverse_rename_map(
             # Look up original from previous batches only
             original = reverse_map.get(entry.old, entry.old)
             batch_updates[entry.new] = original
+        # The old names are gone after this batch (unless the batch re-creates
+        # them): a stale entry would shadow a later re-use of the same name
+        # when the map is inverted (y -> t, t -> z, z -> t).
+        for entry in batch_entries:
+            reverse_map.pop(entry.old, None)
         # Apply all updates from this batch at once
         reverse_map.update(batch_updates)
 
